@@ -7,6 +7,10 @@ import (
 
 // parse and return tag and length, also the length of two parts
 func parseTagAndLength(bytes []byte) (r tagAndLen, off int, e error) {
+	if len(bytes) == 0 {
+		e = fmt.Errorf("no data left to parse a tag from")
+		return r, off, e
+	}
 	off++
 	r.class = int(bytes[0] >> 6)
 	r.constructed = (bytes[0] & 0x20) != 0
@@ -35,28 +39,42 @@ func parseTagAndLength(bytes []byte) (r tagAndLen, off int, e error) {
 		r.len = int64(bytes[off])
 		off++
 	} else {
-		len := int(bytes[off] & 0x7f)
+		// number of octets the length itself is written in
+		lenOctets := int(bytes[off] & 0x7f)
 		// fmt.Println("len", len)
-		if len > 3 {
+		if lenOctets > 3 {
 			e = fmt.Errorf("length is too large")
 			return r, off, e
 		}
 		off++
+		if off+lenOctets > len(bytes) {
+			e = fmt.Errorf("length octets are truncated: bytes: %v, off: %v", bytes, off)
+			return r, off, e
+		}
 		var val int64
-		val, e = parseInt64(bytes[off : off+len])
+		val, e = parseInt64(bytes[off : off+lenOctets])
 		if e != nil {
 			return r, off, e
 		}
 		// fmt.Println("bytes[off : off+len]", bytes[off : off+len], "val", val)
 
 		r.len = int64(val)
-		off += len
+		off += lenOctets
 	}
 
 	return r, off, e
 }
 
 func parseBitString(bytes []byte) (r BitString, e error) {
+	// x.690 8.6: an initial octet with the number of unused bits (0..7) is always present
+	if len(bytes) == 0 {
+		e = fmt.Errorf("BIT STRING without the initial octet")
+		return r, e
+	}
+	if bytes[0] > 7 || (len(bytes) == 1 && bytes[0] != 0) {
+		e = fmt.Errorf("BIT STRING with invalid number of unused bits: %d", bytes[0])
+		return r, e
+	}
 	r.BitLength = uint64((len(bytes)-1)*8 - int(bytes[0]))
 	r.Bytes = bytes[1:]
 	return
@@ -132,6 +150,9 @@ func ParseField(v reflect.Value, bytes []byte, params fieldParameters) error {
 	}
 	switch val := v; val.Kind() {
 	case reflect.Bool:
+		if tal.len < 1 {
+			return fmt.Errorf("BOOLEAN without contents")
+		}
 		if parsedBool, parse_err := parseBool(bytes[talOff]); err != nil {
 			return parse_err
 		} else {
